@@ -186,8 +186,9 @@ P("C18",
      "a real leeching session that fetched a generated blocklist (/32 and /16 rules around the harness's private addresses, comments, junk lines) from a scripted HTTP server: "
      "2-8 listeners on blocked / unblocked addresses announced by hand, in a tracker reply and in a ut_pex message; 0-4 HTTP/UDP trackers on blocked / unblocked addresses; 0-4 "
      "scripted peers dialing in from blocked / unblocked addresses; the three enable switches generated; optionally a reload that adds rules, then new listeners; optionally two "
-     "listeners on one address. A listener / tracker inside the list never sees a connection or request, an incoming connection from inside the list never gets a handshake, "
-     "never two simultaneous connections to one IP; non-trivial = something was blocked and every unblocked twin was contacted",
+     "listeners on one address; optionally a corrupting seeder that gets its IP banned, after which that IP is announced on 1-4 other ports side by side in one tracker reply "
+     "and one ut_pex message. A listener / tracker inside the list never sees a connection or request, an incoming connection from inside the list never gets a handshake, "
+     "never two simultaneous connections to one IP, never a connection to a banned IP; non-trivial = something was blocked and every unblocked twin was contacted",
      Q(64, 16, 900), T(2400, 16), shrinktime="30s"),
   ])
 
@@ -302,7 +303,9 @@ P("C17",
      "(WriteCacheSize of 1-2 pieces, 2-4 seeders, slow writes, ended by completion / stop / remove / stop+start: Session.Stats().WriteCacheSize never above the limit and back to 0 "
      "objects / 0 bytes / 0 pending when quiet); accept (MaxPeerAccept 1-4 with good / wrong-hash / garbage / silent / half-handshake connections: incoming established+handshaking "
      "never above the limit, every failed or timed-out handshake closed by the client); dial (MaxPeerDial 1-4, MaxPeerAddresses 1-6 with listeners that never answer); rate "
-     "(SpeedLimitUpload 32-100 KiB/s: bytes received in 1.3 s <= limit x (elapsed + 1 s) + one message); webseed (1-6 sources, WebseedMaxSources 1-4, WebseedMaxDownloads 1-3)",
+     "(SpeedLimitUpload 32-100 KiB/s: bytes received in 1.3 s <= limit x (elapsed + 1 s) + one message); webseed (1-6 sources, WebseedMaxSources 1-4, WebseedMaxDownloads 1-3); "
+     "reqout (MaxRequestsOut 1-8, DefaultRequestsOut, seeder advertising reqq absent / below / above / huge, pieces of 8-16 blocks: requests arrived at the seeder and not yet answered "
+     "never exceed min(max, reqq or default))",
      Q(192, 16, 1200), T(4800, 16), shrinktime="30s"),
   ])
 
